@@ -156,13 +156,21 @@ impl CaseKind for Case13 {
 }
 
 fn param_vals(i: usize, n: usize) -> Vec<f64> {
-    (0..n).map(|j| (1000 * (i + 1) + j) as f64).collect()
+    match i % 7 {
+        // parameters that are zero or tiny: a small step is representable there
+        5 => vec![0.0; n],
+        6 => (0..n).map(|j| (j as f64 + 1.0) * 2f64.powi(-72)).collect(),
+        _ => (0..n).map(|j| (1000 * (i + 1) + j) as f64).collect(),
+    }
 }
 /// gradients distinct per (round, parameter, element); kind 1: entries cancel to zero; kind 2: all zero
 fn grad_vals(r: usize, i: usize, n: usize, kind: u8) -> Vec<f64> {
     match kind % 8 {
         1 => (0..n).map(|j| if n % 2 == 1 && j == n - 1 { 0.0 } else if j % 2 == 0 { (j + 2) as f64 } else { -((j + 1) as f64) }).collect(),
         2 => vec![0.0; n],
+        // magnitudes far below / above one (exact powers of two times small integers)
+        3 => (0..n).map(|j| (j as f64 + 1.0) * 2f64.powi(-70) * if j % 2 == 0 { 1.0 } else { -1.0 }).collect(),
+        4 => (0..n).map(|j| (j as f64 + 1.0) * 2f64.powi(40)).collect(),
         _ => (0..n).map(|j| (16 * r + 4 * i + j + 1) as f64 * if (i + j) % 3 == 0 { -1.0 } else { 1.0 }).collect(),
     }
 }
@@ -177,7 +185,7 @@ struct R13 {
     lri: usize,
 }
 
-const LRS: [f64; 8] = [0.5, 1.0, 0.25, 0.0, -0.5, 2.0, 0.125, 0.0625];
+const LRS: [f64; 8] = [0.5, 1.0, 0.25, 0.0, -0.5, 2.0, 1125899906842624.0, 0.0625];
 
 fn build(r: &R13, random_lr: Option<f64>) -> Case13 {
     let params: Vec<Param> = r.shapes.iter().enumerate().map(|(i, s)| Param { dims: s.clone(), vals: param_vals(i, numel(s)), tracked: r.tracked[i % r.tracked.len().max(1)] }).collect();
@@ -227,6 +235,13 @@ pub fn run(ctx: &Ctx) -> i32 {
             .boxed()
     };
     st.merge(ctx.run_prop("random-parameter-lists", total, strat, |(r, rl)| Some(build(r, if r.lri >= 8 { Some(*rl) } else { None }))));
+    // long lists: more parameters than fit in one machine word of flags, frozen ones at every position
+    let long_total = t.pick(600u64, 6000);
+    let strat_long = move || (60..=140usize, prop::collection::vec(any::<u8>(), 8..40), prop::collection::vec(any::<u8>(), 8..40), 0..8usize).boxed();
+    st.merge(ctx.run_prop("long-parameter-lists", long_total, strat_long, |(n, m1, m2, lri)| {
+        let shapes: Vec<Vec<usize>> = (0..*n).map(|i| vec![1 + (i % 3)]).collect();
+        Some(build(&R13 { shapes, tracked: vec![true], masks: vec![(0..*n).map(|i| m1[i % m1.len()] | 1 << (i % 5)).map(|b| if b % 5 == 0 { 0 } else { b }).collect(), (0..*n).map(|i| m2[(i * 7) % m2.len()]).collect()], lri: *lri }, None))
+    }));
     finish(
         ctx,
         st,
